@@ -94,10 +94,12 @@ static _Bool inv_B(const bucket_t* B, int maxchain) {
 
 /* ------------------------------------------------------------------ monitors: the writer GUARANTEE the lock-free reader relies on.
  * Kept cheap: address classification by comparison with concrete addresses, sticky flags, no list walks. */
+extern unsigned lk_cas_ok_count, lk_stores; extern _Bool lk_on; extern bstate_t lk_expected, lk_desired; extern int lk_order;   /* lock_bucket monitor (harness.c) */
 _Bool mon_on; bstate_t mon_prev_state; uint32_t mon_version0; _Bool chain0[POOL];
 _Bool mon_bad_slot_store, mon_bad_state_step, mon_bad_item_store, mon_bad_order, mon_lock_dropped;
 _Bool mon_next_store_v0[POOL];
-_Bool mon_unlinked_v0[POOL];         /* item p (linked at the start) was found unlinked while the bucket version was still the initial one */       /* item p had its `next` written while the bucket version was still the initial one */
+_Bool mon_unlinked_v0[POOL];         /* item p (linked at the start) was found unlinked while the bucket version was still the initial one */
+_Bool mon_unlinked[POOL]; uint32_t mon_unlink_ver[POOL];     /* item p has left the chain; bucket version at the store that unlinked it */       /* item p had its `next` written while the bucket version was still the initial one */
 unsigned mon_state_stores, mon_unlocks, mon_slot_stores, mon_head_stores; int mon_last_state_order;
 bucket_t g_other0; bucket_t* g_other;
 #define VERSION_MASK ((uint32_t)((((uint64_t)1) << (32 - version_shift)) - 1))
@@ -113,10 +115,13 @@ static void mon_state_step(bstate_t old, bstate_t new, int o) {
   if ((dv != 0 || ic1 != ic0) && !XV_IS_RELEASE(o)) mon_bad_order = 1;
 }
 static void mon_unlink_check(bucket_t* B) {       /* after a store to head / next */
-  if (BS_version(B->state) != mon_version0) return;
-  for (int p = 0; p < POOL; ++p) if (chain0[p] && !in_chain(B, POOL_ITEM_C(p))) mon_unlinked_v0[p] = 1;
+  for (int p = 0; p < POOL; ++p) if (chain0[p] && !mon_unlinked[p] && !in_chain(B, POOL_ITEM_C(p))) {
+    mon_unlinked[p] = 1; mon_unlink_ver[p] = BS_version(B->state);
+    if (BS_version(B->state) == mon_version0) mon_unlinked_v0[p] = 1;
+  }
 }
 static void mon_store(void* addr, uint64_t v, int o) {
+  if (lk_on) lk_stores++;
   if (!mon_on) return;
   bucket_t* B = g_B;
   if (addr == (void*)&B->state) {
@@ -144,10 +149,14 @@ static void mon_store(void* addr, uint64_t v, int o) {
     return; }
   for (int p = 0; p < POOL; ++p) if (chain0[p]) {
     extension_item* x = POOL_ITEM_C(p);
-    /* an item that was linked when the operation started is not written before the version has moved on; the only exception is the
-       `next` store that unlinks its successor - and that one must not hit the item being removed itself (checked at the end) */
-    if (addr == (void*)&x->key || addr == (void*)&x->value) { if (BS_version(B->state) == mon_version0) mon_bad_item_store = 1; return; }
-    if (addr == (void*)&x->next) { if (BS_version(B->state) == mon_version0) mon_next_store_v0[p] = 1; mon_unlink_check(B); return; }
+    /* an item that was linked when the operation started: while it is linked only its `next` may be written (that unlinks the successor);
+       once it is unlinked it is not written (recycled into the free list) before the bucket version has moved on from the version at which
+       it was unlinked - a reader standing on it re-reads the version after following `next` */
+    if (addr == (void*)&x->key || addr == (void*)&x->value || addr == (void*)&x->next) {
+      if (!mon_unlinked[p]) { if (addr != (void*)&x->next) mon_bad_item_store = 1; else { if (BS_version(B->state) == mon_version0) mon_next_store_v0[p] = 1; mon_unlink_check(B); } }
+      else if (BS_version(B->state) == mon_unlink_ver[p]) mon_bad_item_store = 1;
+      return;
+    }
   }
 }
 /* reader monitor (try_get_value): which cells were loaded when, in the current iteration of the retry loop */
@@ -178,6 +187,7 @@ static void mon_load(void* addr, uint64_t v, int o) {
   }
 }
 static void mon_cas(void* addr, uint64_t e, uint64_t d, _Bool ok, int o) {
+  if (lk_on && addr == (void*)&g_B->state && ok) { lk_cas_ok_count++; lk_expected = (bstate_t)e; lk_desired = (bstate_t)d; lk_order = o; }
   if (!mon_on) return;
   if (addr == (void*)&g_B->state && ok) { mon_prev_state = (bstate_t)d; }    /* the monitor runs before the cell is written */
 }
